@@ -673,3 +673,31 @@ Proof.
   replace (Z.to_nat (Z.of_N (N.of_nat (length x)))) with (length x) by lia.
   destruct (read_bytes_n_ok x r all p t V H) as (r' & E & V'). rewrite E. cbn. eauto.
 Qed.
+
+(* the first chunk of a non-empty range is non-empty (needed where generated code indexes Range(..)[0][0]) *)
+Lemma range_head r all p a b : View r all p -> a < b -> b <= length all ->
+  exists x t cs, rd_range r (Z.of_nat a) (Z.of_nat b) = Some ((x :: t) :: cs).
+Proof.
+  intros (Hwf & <- & _) Hab Hb. destruct r as [buf q|w s q]; cbn [all_bytes] in *.
+  - unfold rd_range. replace ((Z.of_nat a <? 0)%Z || (Z.of_nat (length buf) <? Z.of_nat b)%Z || (Z.of_nat b <? Z.of_nat a)%Z)%bool with false.
+    2:{ symmetry. rewrite !orb_false_iff. repeat split; nlia. }
+    rewrite !Nat2Z.id. destruct (skipn a buf) as [|x t] eqn:E.
+    + assert (H0 : length (skipn a buf) = 0) by (rewrite E; reflexivity). rewrite skipn_length in H0. nlia.
+    + destruct (b - a) as [|k] eqn:Ek; [nlia|]. cbn [firstn]. eauto.
+  - unfold rd_range. rewrite acc_sz_all. unfold bytes, byte in *.
+    replace ((Z.of_nat a <? 0)%Z || (Z.of_nat (length (concat w)) <? Z.of_nat b)%Z || (Z.of_nat b <? Z.of_nat a)%Z)%bool with false.
+    2:{ symmetry. rewrite !orb_false_iff. repeat split; nlia. }
+    replace (Z.of_nat a =? Z.of_nat b)%Z with false by nlia. rewrite !Nat2Z.id.
+    destruct (find_start_spec w 0 0 a) as (k1 & sp & cs & E1 & N1 & Hsp & Ha); [unfold bytes, byte in *; nlia|].
+    destruct (find_end_spec w 0 0 b) as (k2 & ep & ce & E2 & N2 & Hep & Hbb); [unfold bytes, byte in *; nlia|].
+    unfold bytes, byte in *. rewrite E1, E2. cbn [Nat.add] in *.
+    rewrite (nth_error_nth _ _ _ N1).
+    assert (Hx : exists x t, skipn sp cs = x :: t).
+    { destruct (skipn sp cs) as [|x t] eqn:E; [|eauto].
+      assert (H0 : length (skipn sp cs) = 0) by (rewrite E; reflexivity). rewrite skipn_length in H0. nlia. }
+    destruct Hx as (x & t & Hx).
+    destruct (k1 =? k2) eqn:Ek.
+    + apply Nat.eqb_eq in Ek. subst k2. rewrite N1 in N2. inversion N2; subst ce.
+      rewrite Hx. destruct (ep - sp) as [|k] eqn:Ee; [nlia|]. cbn [firstn]. eauto.
+    + rewrite Hx. cbn [app]. eauto.
+Qed.
